@@ -163,6 +163,36 @@ Definition read_child (ft : ftable) (formals : list string) (c : xnode) : option
       end
   end.
 
+(* the order of the children of a record element in the PROV-XML schema: the formal arguments in their order,
+   then prov:label, prov:location, prov:role, prov:type, prov:value, then elements of other namespaces *)
+Fixpoint index_in (s : string) (l : list string) (i : nat) : option nat :=
+  match l with
+  | [] => None
+  | x :: r => if String.eqb x s then Some i else index_in s r (S i)
+  end.
+Definition child_rank (formals : list string) (c : xnode) : nat :=
+  match c with
+  | XE ns local _ _ _ _ =>
+      let n := length formals in
+      if String.eqb ns spec_prov_uri then
+        match index_in local formals 0 with
+        | Some i => i
+        | None =>
+            match index_in local ["label"; "location"; "role"; "type"; "value"] 0 with
+            | Some j => (n + j)%nat
+            | None => (n + 5)%nat
+            end
+        end
+      else (n + 5)%nat
+  end.
+Fixpoint nondecreasing (l : list nat) : bool :=
+  match l with
+  | a :: ((b :: _) as r) => (Nat.leb a b && nondecreasing r)%bool
+  | _ => true
+  end.
+Definition schema_order (formals : list string) (kids : list xnode) : bool :=
+  nondecreasing (map (child_rank formals) kids).
+
 Definition read_record (ft : ftable) (x : xnode) : option (list sexp) :=
   match x with
   | XE ns local attrs scope _ kids =>
@@ -174,6 +204,7 @@ Definition read_record (ft : ftable) (x : xnode) : option (list sexp) :=
                      | None => Some (A "none")
                      | Some s => option_map A (resolve_uri scope s)
                      end in
+          if negb (schema_order formals kids) then None else
           match idc, all_some (map (read_child ft formals) kids) with
           | Some ic, Some cs =>
               let extra := match sub with
